@@ -375,10 +375,9 @@ func goParserAction(s string, args *grammar.ActionVars, origin status.SourceNode
 
 		// We are trying to locate the first or last symbol from RHS.
 		if pos == 0 && index >= 0 {
+			// Note: pos stays 0 for symbols without a position (extracted mid-rule actions and
+			// lookaheads); they have no type.
 			pos = reverseLookup(index, args.Remap)
-			if pos == 0 {
-				return "", status.Errorf(origin, "internal error: cannot find the position for index %v", index)
-			}
 		}
 
 		if index == -1 {
@@ -646,10 +645,9 @@ func bisonParserAction(s string, args *grammar.ActionVars, origin status.SourceN
 		}
 
 		if pos == 0 && index >= 0 {
+			// Note: pos stays 0 for symbols without a position (extracted mid-rule actions and
+			// lookaheads); they have no type.
 			pos = reverseLookup(index, args.Remap)
-			if pos == 0 {
-				return "", status.Errorf(origin, "internal error: cannot find the position for index %v", index)
-			}
 		}
 
 		if index == -1 {
